@@ -87,6 +87,13 @@ type loop struct {
 	got []midi.Message
 	ts  []int32
 	snd func(midi.Message) error
+	// the receiver keeps the messages it was handed (a slave that assembles a time code from eight quarter
+	// frames, a recorder): the last 16 delivered slices and what they held when the callback returned
+	held     [16]midi.Message
+	heldWant [16][]byte
+	heldN    int
+	changed  string // first observation of a kept message that changed after its delivery
+	heldOK   int64
 }
 
 func newLoop(opts ...midi.Option) *loop {
@@ -99,6 +106,18 @@ func newLoop(opts ...midi.Option) *loop {
 		for k := range m { // the receiver edits what it was handed
 			m[k] ^= 0x2A
 		}
+		for k := 0; k < len(l.held) && k < l.heldN; k++ {
+			if !bytes.Equal(l.held[k], l.heldWant[k]) {
+				if l.changed == "" {
+					l.changed = fmt.Sprintf("a message the receiver kept (delivered as % X, left by the receiver as % X) reads % X after a later delivery (% X)", xor2A(l.heldWant[k]), l.heldWant[k], []byte(l.held[k]), xor2A(m))
+				}
+			} else {
+				l.heldOK++
+			}
+		}
+		slot := l.heldN % len(l.held)
+		l.held[slot], l.heldWant[slot] = m, append([]byte(nil), m...)
+		l.heldN++
 	}, opts...)
 	if err != nil {
 		panic(err)
@@ -108,6 +127,14 @@ func newLoop(opts ...midi.Option) *loop {
 		panic(err)
 	}
 	return l
+}
+
+func xor2A(b []byte) []byte {
+	o := make([]byte, len(b))
+	for i := range b {
+		o[i] = b[i] ^ 0x2A
+	}
+	return o
 }
 
 // roundTrip sends one message and returns what the listener got for it.
@@ -129,7 +156,7 @@ func init() {
 			"out-of-range system-common arguments only need a well-formed message (statement)",
 			"loopback is observed through drivers/testdrv + midi.ListenTo with all listen options enabled",
 		},
-		Require: []string{"ctor_points", "loopback_deliveries", "accessor_calls", "out_of_range_points", "concurrent_ctor_points", "nil_pattern_calls", "conversations_with_replies_to_replies", "loopback_repeated_deliveries", "several_loopback_sessions", "appends_to_returned_messages"},
+		Require: []string{"ctor_points", "loopback_deliveries", "accessor_calls", "out_of_range_points", "concurrent_ctor_points", "nil_pattern_calls", "conversations_with_replies_to_replies", "loopback_repeated_deliveries", "several_loopback_sessions", "appends_to_returned_messages", "kept_deliveries_rechecked"},
 		Run:     runC07,
 	})
 }
@@ -170,6 +197,12 @@ func runC07(c *mon.Ctx) {
 	checkLoop := func(name string, m midi.Message, args any) {
 		got := lp.roundTrip(m)
 		c.Count("loopback_sends", 1)
+		if lp.changed != "" {
+			c.Violation("loopback-kept-message-changed", "loopback: "+lp.changed, args, nil, nil)
+			lp.changed = ""
+		}
+		c.Count("kept_deliveries_rechecked", lp.heldOK)
+		lp.heldOK = 0
 		if len(got) != 1 || !bytes.Equal(got[0], m) {
 			c.Violation("loopback:"+name, fmt.Sprintf("%s%v sent through the loopback port arrived as %v", name, args, mon.HexList(toBytes(got))), args, mon.Hex(m), mon.HexList(toBytes(got)))
 			return
